@@ -34,7 +34,11 @@ RULE = ("histories = one space (SingleGrid, MultiGrid, HexSingleGrid, HexMultiGr
         "signatures, split_model_params and ModelCreator on dicts over 13 value forms; variants per history: shared portrayal "
         "dicts (20 %), colours as hex / RGB / RGBA / mixed (30 %), numpy scalars (20 %), agents with a False truth value (25 %), "
         "every draw preceded by a draw aborted in the portrayal (15 %); plus all signatures with <= 1 (quick) / <= 2 (thorough) "
-        "parameters x 16 parameter subsets; every history starts from the EMPTY space; non-trivial = at least one "
+        "parameters x 16 parameter subsets; variants also: portrayal returning a dict subclass / read-only Mapping / OrderedDict, portrayal "
+        "given as bound method / partial / callable object, legacy agents with pos behind a property, every drawing entry point with "
+        "and without ax; IMPLEMENTATION + ORACLE ONLY streams (not model-evaluated): SCALE (6 histories with 255..5000 agents and 1-3 "
+        "agents returning a key) and USER CODE (70 histories whose portrayal moves the portrayed agent, moves another agent, or raises "
+        "one of 7 exception types inside collect / draw_space / the component, each followed by ordinary draws); every history starts from the EMPTY space; non-trivial = at least one "
         "drawing/check observation that is not a no-op and at least 3 operations; distinct = by SHA1 of the history")
 TRUSTED_BASE = [
     "Coq 8.16.1 kernel (coqc); vm_compute for the Examples, the refutation witnesses and the evaluation of the model in the correspondence",
@@ -323,6 +327,12 @@ def _gen_case(rng, cls=None, nops=None):
         v["falsy"] = True                             # agents whose truth value is False (__len__ == 0 / __bool__ False)
     if rng.random() < 0.15:
         v["raise_first"] = True                       # every draw is preceded by a draw aborted by an exception in the portrayal
+    if rng.random() < 0.25:
+        v["dict_kind"] = rng.choice([1, 2, 3])       # the portrayal returns a dict subclass / read-only Mapping / OrderedDict
+    if rng.random() < 0.25:
+        v["callable_kind"] = rng.choice([1, 2, 3])   # the portrayal is a bound method / functools.partial / callable object
+    if rng.random() < 0.2:
+        v["prop_agents"] = True                       # legacy agents keep pos behind a property
     if rng.random() < 0.5:
         v["entry"] = rng.randint(1, 1000)            # rotate through draw_space / the per-space drawers, with and without ax
     if layer is not None and rng.random() < 0.35:
@@ -404,6 +414,30 @@ def _gen_scale_case(rng, cls, n):
     return c
 
 
+def _gen_usercode_case(rng):
+    """USER-CODE stream (implementation + oracle only): portrayals with side effects inside ordinary histories"""
+    c = _gen_case(rng)
+    sp = c["space"]
+    ops = c["ops"]
+    ids = sorted({o[1] for o in ops if o[0] == "place"}) or [1]
+    out = []
+    for o in ops:
+        out.append(o)
+        if o[0] in ("place", "move", "mpl", "collect") and rng.random() < 0.45:
+            r = rng.random()
+            x, y = _rand_addr(rng, sp)
+            if r < 0.5:
+                out.append(["ucmove", rng.randrange(3), rng.choice(ids), x, y])
+            elif r < 0.75:
+                out.append(["ucother", rng.randrange(3), rng.choice(ids), rng.choice(ids), x, y])
+            else:
+                out.append(["ucraise", rng.randrange(3), rng.choice(ids), rng.randrange(7)])
+            out.append([rng.choice(["mpl", "collect", "altair"])])      # what happens NEXT must be exact
+    c["ops"] = out
+    c["usercode"] = True
+    return c
+
+
 SCALE_CLASSES = ["MultiGrid", "SingleGrid", "OrthogonalMooreGrid", "HexGrid", "HexMultiGrid", "ContinuousSpace", "NetworkGrid", "Network",
                  "OrthogonalMooreGrid1", "ContinuousSpaceExp", "VoronoiGrid"]
 
@@ -416,9 +450,11 @@ def gen_cases(rng, tier):
         cases.append(_gen_scale_case(rng, SCALE_CLASSES[(k + rng.randrange(11)) % 11 if k >= 3 else k],
                                      rng.choice([1000, 1001, 1500, 2049]) if k < 3 else rng.choice(SCALE_SIZES)))
     classes = list(CLASSES)
-    n = 1800 if tier == "quick" else 20000
+    n = 1700 if tier == "quick" else 20000
     for i in range(n):
         cases.append(_gen_case(rng, classes[i % len(classes)] if i < 4 * len(classes) else None))
+    for _ in range(70 if tier == "quick" else 1500):
+        cases.append(_gen_usercode_case(rng))
     for _ in range(400 if tier == "quick" else 4000):
         cases.append(_gen_pure_case(rng, 12))
     # exhaustive small signatures x parameter subsets, checked AND really called (model-evaluated)
@@ -892,12 +928,53 @@ def run_impl(case):
             out["zorder"] = num(d[3])
         return out
 
-    def portrayal_fn(agent):
+    hook = [None]          # user code that runs inside the portrayal (usercode stream)
+
+    def wrap(d):
+        """what the portrayal hands back: a plain dict, a dict subclass, a read-only Mapping, an OrderedDict"""
+        dk = variant.get("dict_kind", 0)
+        if dk == 1:
+            class Style(dict):
+                pass
+
+            return Style(d)
+        if dk == 2:
+            import types
+
+            return types.MappingProxyType(d)
+        if dk == 3:
+            import collections
+
+            return collections.OrderedDict(d)
+        return d
+
+    def base_portrayal(agent):
+        if hook[0] is not None:
+            hook[0](agent)
         if not shared:
-            return fresh_dict(agent._vkind)
+            return wrap(fresh_dict(agent._vkind))
         if agent._vkind not in cache:
             cache[agent._vkind] = fresh_dict(agent._vkind)
-        return cache[agent._vkind]
+        return cache[agent._vkind] if not variant.get("dict_kind") else wrap(cache[agent._vkind])
+
+    class _Painter:
+        def paint(self, agent):
+            return base_portrayal(agent)
+
+        def __call__(self, agent):
+            return base_portrayal(agent)
+
+    ck = variant.get("callable_kind", 0)
+    if ck == 1:
+        portrayal_fn = _Painter().paint                        # a bound method
+    elif ck == 2:
+        import functools
+
+        portrayal_fn = functools.partial(lambda style, agent: base_portrayal(agent), "unused")
+    elif ck == 3:
+        portrayal_fn = _Painter()                              # a callable object
+    else:
+        portrayal_fn = base_portrayal
 
     def mutated(i, where):
         """a portrayal function may return the same dict object for many agents / calls; the drawing code must not change it"""
@@ -935,6 +1012,19 @@ def run_impl(case):
 
             return ContinuousSpaceAgent(space, model)
         base = mesa.Agent if legacy else CellAgent
+        if variant.get("prop_agents") and legacy:
+            class Tracked(base):
+                """user subclass that keeps pos behind a property (the space ASSIGNS agent.pos)"""
+
+                @property
+                def pos(self):
+                    return self.__dict__.get("_where")
+
+                @pos.setter
+                def pos(self, value):
+                    self.__dict__["_where"] = value
+
+            base = Tracked
         if variant.get("falsy"):
             # an agent that is a (currently empty) container, or defines its own truth value: `if agent:` is False
             class Household(base):
@@ -972,7 +1062,7 @@ def run_impl(case):
         return kw
 
     def draw(layer_portrayal=None):
-        if variant.get("raise_first") and shadow:
+        if variant.get("raise_first") and shadow and hook[0] is None:
             # a draw abandoned half-way (user code raises) must leave nothing behind for the next one
             calls = []
 
@@ -1321,6 +1411,75 @@ def run_impl(case):
                 m = min(sp["w"], sp["h"])
                 if not hs and (sn, sd) != _size_frac(30000 / m ** 2):
                     fail("C20/altair/encoding/default-mark-size", i, f"default mark size {sn}/{sd} on a {sp['w']}x{sp['h']} space")
+            elif kind in ("ucmove", "ucother", "ucraise"):
+                # USER CODE inside the portrayal: it moves the portrayed agent / another agent / raises.  The drawing data must
+                # describe the space as it is when the call returns (implementation + oracle only)
+                how = op[1]
+                aid = op[2]
+                if aid not in shadow or spring:
+                    obs.append([-2])
+                    continue
+                names = ["collect", "mpl", "component"]
+                EXC = [RuntimeError, StopIteration, KeyError, IndexError, AttributeError, TypeError, ValueError]
+
+                def run_entry():
+                    if how == 0:
+                        return collect_obs(), False
+                    if how == 1:
+                        return _read_markers(draw(), sp), True
+                    return _read_markers(component("matplotlib", False, i).axes[0], sp), True
+
+                fired = []
+                if kind == "ucraise":
+                    exc = EXC[op[3] % len(EXC)]
+
+                    def h(agent, exc=exc):
+                        if agent is agents.get(aid) and not fired:
+                            fired.append(1)
+                            raise exc("portrayal failed")
+
+                    hook[0] = h
+                    try:
+                        run_entry()
+                        obs.append([-1, 99])
+                        fail(f"C20/usercode/{names[how]}/exception-swallowed", i, f"the portrayal raised {exc.__name__} for agent {aid}; the drawing call returned normally")
+                    except exc:
+                        obs.append([-1, 7])
+                    finally:
+                        hook[0] = None
+                    continue
+                target = aid if kind == "ucmove" else op[3]
+                x, y = (op[3], op[4]) if kind == "ucmove" else (op[4], op[5])
+                if target not in shadow or not _valid_addr(sp, x, y) or (single and occupied(x, y)) or (kind == "ucother" and target == aid):
+                    obs.append([-2])
+                    continue
+                old = dict(shadow)
+
+                def h(agent):
+                    if agent is agents.get(aid) and not fired:
+                        fired.append(1)
+                        put(agents[target], x, y, False)
+                        shadow[target] = (shadow[target][0], x, y)
+
+                hook[0] = h
+                try:
+                    rows, drawn = run_entry()
+                finally:
+                    hook[0] = None
+                mutated(i, "collect")
+                obs.append(_rows_obs(rows))
+                exp_new = _expected_marks(sp, pt, shadow, drawn=drawn)
+                ok = sorted(rows) == exp_new
+                if not ok and kind == "ucother":
+                    # another agent was moved: it may already have been visited - its marker is at the old or the new location
+                    o2 = _Shadow(shadow)
+                    o2[target] = old[target]
+                    ok = sorted(rows) == _expected_marks(sp, pt, o2, drawn=drawn)
+                if not ok:
+                    fail(f"C20/usercode/{names[how]}/marker-not-at-current-location", i,
+                         f"{names[how]} on {cls} {_dims(sp)}: the portrayal of agent {aid} moved agent {target} from {old[target][1:]} to {(x, y)} "
+                         f"(a deferred move settled when the agent is looked at); when the call returns the space holds {shadow} but the markers are "
+                         f"{sorted(rows)}; one marker per agent at its CURRENT location is {exp_new}")
             elif kind == "inflayer":
                 # a second, float layer that is constantly +inf / -inf, drawn with the default or the explicit scale
                 _, cm, neg, explicit = op
@@ -1607,7 +1766,8 @@ def run_impl(case):
         import matplotlib.pyplot as plt
 
         plt.close("all")
-    return {"obs": obs, "failures": failures, "model": not spring and occupied_set is None}
+    return {"obs": obs, "failures": failures,
+            "model": not spring and occupied_set is None and not any(o[0].startswith("uc") for o in case["ops"])}
 
 
 TAG_CLASS = {0: 0, 1: 1, 2: 2, 3: 3, 4: 2, 5: 2, 6: 2, 7: 2, 8: 0, 9: 1, 10: 0, 11: 0, 12: 0}     # tag -> fixed / Slider / dict with type / dict without
@@ -1865,7 +2025,7 @@ def _coq_op(op):
         return "DrawAltairEnc"
     if k == "inflayer":
         return f"DrawInfLayer {L.b(op[1])} {L.b(op[2])}"
-    if k == "bulk":
+    if k in ("bulk", "ucmove", "ucother", "ucraise"):
         return "Collect"        # scale histories are implementation + oracle only; never evaluated by the model
     if k == "check":
         sig = [_coq_param("self", "PosOrKw", False)] + [_coq_param(*p) for p in op[1]]
